@@ -171,6 +171,13 @@ def build_system(case, ctx, g):
         b = gens.make_tt(N, case['Rb'], dt, 'gauss', g)
     if layout in ('permuted-views', 't().t()'):
         b = torchtt.TT([c.permute(2, 1, 0).contiguous().permute(2, 1, 0) for c in b.cores])
+    # overall magnitude of the right-hand side (the contract is relative: ||Ax-b|| <= C eps ||b|| at 1e-15 as at 1)
+    bscale = [1.0, 1.0, 1.0, 1e-15, 1e8, 1e-8][(case['vseed'] // 7) % 6]
+    if bscale != 1.0:
+        b = torchtt.TT([c * bscale if k == 0 else c for k, c in enumerate(b.cores)])
+        if case['rhs'] == 'image':
+            case['_xt'] = torchtt.TT([c * bscale if k == 0 else c for k, c in enumerate(case['_xt'].cores)])
+    ctx.count('rhs-magnitude:%g' % bscale)
     return A, b, Am, cond
 
 
